@@ -45,6 +45,9 @@ func checkC01(c *Ctx) {
 		_, nv := sub.fmtConst("FMT-CONST", fx, "", func(g *types.Func) bool { return g.Name() == "c01text" })
 		c.Control("FMT-CONST", nv == 1, "fixture.C01FormatText uses a computed text as format string")
 	}
+	c.Decides("LEX-LOSSLESS: the Newick scanner functions that consume a run of runes return the buffer they filled as the token literal (whitespace inside comments included)")
+	c.lexLossless("LEX-LOSSLESS", "io/newick")
+	c.Floor("LEX-LOSSLESS", 2)
 	c.Floor("COMMENT-FORM", 1)
 	c.Floor("FIELDS", 6)
 	c.Floor("TABLE", 5)
